@@ -114,7 +114,8 @@ def _seq_stage(ctx, prop, histories, extra=()):
     ctx.stage("histories-ndebug", "seqmodel", "rel-asan", worker_args(ctx.seed + 90001, max(16, histories // 3), 16, ["--prop", prop] + [x for x in extra if x != "--directed"]), timeout=3600)
     # the same histories under valgrind memcheck (plain build): results that depend on uninitialised memory, which no compiler sanitizer here reports
     ctx.stage("histories-memcheck", "seqmodel", "dbg+memcheck", worker_args(ctx.seed + 70001, max(32, histories // 100), 16, ["--prop", prop] + [x for x in extra if x != "--directed"]), timeout=3600)
-    ctx.floors = _seq_floors()
+    ctx.floors = _seq_floors() + [("histories_with_companion_thread", 100), ("views_held_across_own_remove", 100), ("companion_drains", 100),
+                                  ("stats_checks_with_deferred_reclamation", 1000)]
     ctx.assumptions = list(SEQ_ASSUME)
 
 
@@ -125,7 +126,9 @@ def c01(ctx):
     ctx.rule = ("generated histories (insert incl. duplicates, remove incl. absent keys, get, empty, clear, quiescent states for olc_db) of ~300-900 "
                 "operations over key-set families {dense, sparse, boundary, per-byte alphabets of sizes 1,2,3,4,5,16,17,48,49,256, zero-terminated "
                 "mixed-length strings, deep fixed-length strings, encoder-shaped keys}, round-robin over {db, mutex_db, olc_db} x {uint64, key_view}; "
-                "every return value compared with a byte-string map, up to 24 held value views re-read after every operation. A history is "
+                "every return value compared with a byte-string map, up to 24 held value views re-read after every operation. Half of the olc_db histories run with a second "
+                "QSBR-registered companion thread (it only passes through quiescent states on request), so that reclamation is really deferred: there the views of an "
+                "entry survive the caller's own remove and are re-read until the caller's next quiescent state. A history is "
                 "distinct+non-trivial when its operation-sequence hash is new and it contained >= 1 structural transition and >= 1 failing (duplicate/absent) call. "
                 "Coverage floor: each of %d (class, key kind, transition) combinations observed at least once, measured from the reference trie" % len(_seq_floors()))
 
@@ -154,7 +157,8 @@ def c10(ctx):
     ctx.rule = ("after every operation of C01-style histories (incl. failed/duplicate operations and clear): node counts per class, leaf count, memory use, "
                 "growth/shrink counters and prefix-split counter compared with what the path-compressed radix tree of the current key set (reference trie, "
                 "smallest fitting class per node) implies; bytes held from the allocator (allocate/free hooks) compared with reported memory use; nothing "
-                "held after destruction (hooks + LeakSanitizer). A comparison is distinct+non-trivial when the key-set hash is new and the tree has >= 1 inner node. "
+                "held after destruction (hooks + LeakSanitizer); in the olc_db histories with a companion thread the allocator may hold more than reported while something awaits "
+                "deferred reclamation and must equal it exactly after every drain (three rounds of quiescent states of both threads). A comparison is distinct+non-trivial when the key-set hash is new and the tree has >= 1 inner node. "
                 "Concurrent part (olc_db): after every execution of the C03 programs under the serialized scheduler and in free-running rounds - all threads gone, QSBR "
                 "drained - node counts must equal the reference trie of the final key set, allocator bytes the reported memory, and the conservation identities "
                 "nodes[X] = grow[X] - shrink[X] - grow[larger] + shrink[larger] must hold (a counter that moves on an abandoned attempt breaks them)")
